@@ -136,8 +136,29 @@ func (e *Env) errVal(msg string) Iface {
 	return v
 }
 
-func (e *Env) errNotExist() Iface { return e.errVal("file does not exist") }
-func (e *Env) errExist() Iface    { return e.errVal("file exists") }
+func (e *Env) errNotExist() Iface { return e.it.fsSentinel("ErrNotExist") }
+func (e *Env) errExist() Iface    { return e.it.fsSentinel("ErrExist") }
+
+// fsSentinel returns io/fs.ErrNotExist etc. (the values os.ErrNotExist aliases), so that comparisons with the
+// sentinels and errors.Is behave as with the real os package.
+func (it *Interp) fsSentinel(name string) Iface {
+	fsp := it.P.Pkgs["io/fs"]
+	if fsp == nil {
+		return it.env.errVal(name)
+	}
+	if !it.inited[fsp] {
+		call(it, nil, 0, fsp.Func("init"), nil)
+	}
+	g := fsp.Var(name)
+	if g == nil {
+		return it.env.errVal(name)
+	}
+	v, _ := (*it.globalAddr(g)).(Iface)
+	if v.T == nil {
+		return it.env.errVal(name)
+	}
+	return v
+}
 func (e *Env) errClosed() Iface   { return e.errVal("file already closed") }
 func (e *Env) errInjected() Iface { return e.errVal("input/output error (injected)") }
 
